@@ -87,6 +87,15 @@ class Counter:
     def vec(self, X):
         return np.array([self.scalar(x) for x in X])
 
+    def vec_buffer(self, X):
+        # a vectorised likelihood that writes into one preallocated output array and returns it every time (legal: the values are
+        # those of the scalar likelihood; whoever keeps results must copy them)
+        vals = [self.scalar(x) for x in X]
+        if getattr(self, "_buf", None) is None or len(self._buf) != len(vals):
+            self._buf = np.empty(len(vals))
+        self._buf[:] = vals
+        return self._buf
+
 
 class PoolLike:
     """evaluates in a scrambled order and returns results in task order, like a real pool"""
@@ -134,6 +143,10 @@ def one(cfg, strategy, seed, blobs):
     c = Counter(blobs, hole=kw.pop("hole", False))
     if strategy == "vectorize":
         like, kw["vectorize"] = c.vec, True
+    elif strategy == "vectorize-buffer":
+        like, kw["vectorize"] = c.vec_buffer, True
+    elif strategy == "intpool":
+        like, kw["pool"] = c.scalar, 2          # the library starts its own worker processes
     else:
         like = c.scalar
         if strategy == "richpool":
@@ -159,7 +172,8 @@ def sweep(run, tier, rng):
     for ci, cfg in enumerate(cfgs):
         for blobs in ([False, True] if tier != "quick" or ci == 0 else [False]):
             seed = rng.randrange(10 ** 6)
-            strategies = ["scalar", "inorder", "reversed", "shuffled", "richpool"] + ([] if blobs else ["vectorize"])
+            strategies = ["scalar", "inorder", "reversed", "shuffled", "richpool"] + ([] if blobs else ["vectorize", "vectorize-buffer"]) \
+                + (["intpool"] if ci == 0 and not blobs else [])
             res = {}
             for st in strategies:
                 what = dict(cfg=cfg, blobs=blobs, strategy=st, random_state=seed)
@@ -171,6 +185,8 @@ def sweep(run, tier, rng):
                 run.case(key=(ci, blobs, st), nontrivial=st != "scalar")
                 run.count(f"strategy={st}")
                 dig, calls, rows, hist_calls = res[st]
+                if st == "intpool":
+                    rows = calls   # evaluated in worker processes: this process cannot count them
                 if calls != rows:
                     run.fail("calls-miscounted", f"reported calls={calls} but the likelihood was evaluated at {rows} points", **what)
                 if any(b < a for a, b in zip(hist_calls, hist_calls[1:])):
